@@ -12,14 +12,17 @@ VARIABLES hist, px, fin
 
 SimInit == Init /\ hist = <<>> /\ px = 0 /\ fin = FALSE
 \* two small choices per call (an X, then one of the strings with this X or a malformed one, and a curve)
-StringsOf(x) == {b \in Strings : b[1] = "bad" \/ b[2] = x}
+StringsOf(x) == {b \in Strings : b[1] # "bad" /\ b[2] = x}
+BadStrings == {b \in Strings : b[1] = "bad"}
 \* repeats are what a cache is about: half of the choices re-ask something already asked (possibly on the other curve)
 Again == {h.b : h \in {hist[i] : i \in 1..Len(hist)}}
 SimNext == /\ UNCHANGED vars
-           /\ \/ Len(hist) < Depth /\ px = 0 /\ px' \in Xs \cup {100} /\ UNCHANGED <<hist, fin>>
+           /\ \/ Len(hist) < Depth /\ px = 0 /\ px' \in Xs \cup {100, 101, 102, 200} /\ UNCHANGED <<hist, fin>>
               \/ Len(hist) < Depth /\ px \in Xs /\ px' = 0 /\ fin' = FALSE
                  /\ \E b \in StringsOf(px), c \in Curves : hist' = Append(hist, [b |-> b, c |-> c])
-              \/ Len(hist) < Depth /\ px = 100 /\ px' = 0 /\ fin' = FALSE
+              \/ Len(hist) < Depth /\ px = 200 /\ px' = 0 /\ fin' = FALSE
+                 /\ \E b \in BadStrings, c \in Curves : hist' = Append(hist, [b |-> b, c |-> c])
+              \/ Len(hist) < Depth /\ px \in {100, 101, 102} /\ px' = 0 /\ fin' = FALSE
                  /\ IF Again = {} THEN hist' = hist ELSE \E b \in Again, c \in Curves : hist' = Append(hist, [b |-> b, c |-> c])
               \/ Len(hist) = Depth /\ ~fin /\ fin' = TRUE /\ UNCHANGED <<hist, px>>
 SimSpec == SimInit /\ [][SimNext]_<<vars, hist, px, fin>>
